@@ -1,7 +1,7 @@
 """Adaptive branches of C05 (addition on the common grid) and C12 (independence under bin growth)."""
 from lib.a_adaptive import AdaptiveAdapter, GridEmb
 
-VIEW = {"accepted", "bins", "freq", "err2", "missed", "total", "live", "adaptive"}
+VIEW = {"accepted", "bins", "freq", "err2", "missed", "total", "live", "adaptive", "stats"}
 GRIDS = [[GridEmb(1.0), GridEmb(0.5)], [GridEmb(0.1), GridEmb(2.5, 0.5)]]
 
 
@@ -9,12 +9,17 @@ def _run(ctx, tier, label, base="MC_Adaptive_add", req=("NewEmpty", "NewFilled",
     cfg = base + ("q" if tier == "quick" else "t")
     _res, g = ctx.model_check(cfg, required_actions=list(req))
     for n, gr in enumerate(GRIDS if tier == "thorough" else GRIDS[:1]):
-        ctx.replay(g, AdaptiveAdapter(gr, spelling=n), VIEW, label=f"{label}:" + "/".join(x.name for x in gr),
+        ctx.replay(g, AdaptiveAdapter(gr, spelling=n, stats_cls="M"), VIEW, label=f"{label}:" + "/".join(x.name for x in gr),
                    edge_budget=50000 if tier == "quick" else 300000)
 
 
 def add_part(ctx, tier):
     _run(ctx, tier, "adaptive-add", "MC_Adaptive_c05", ("NewEmpty", "NewFilled", "Add", "IAdd", "Copy", "Fill", "FillN"))
+
+
+def stats_part(ctx, tier):
+    """C14: statistics accumulate over adaptive addition too."""
+    _run(ctx, tier, "adaptive-stats", "MC_Adaptive_c05", ("NewEmpty", "NewFilled", "Add", "IAdd", "Copy", "Fill", "FillN"))
 
 
 def independence_part(ctx, tier):
